@@ -708,7 +708,12 @@ impl FinishedSession {
         if let Some(rollback_delta) = self.rollback_delta {
             // UNWRAP: if rollback_delta is `Some`, then rollback must be also `Some`.
             let rollback = nomt.store.rollback().unwrap();
-            rollback.commit(rollback_delta)?;
+            if let Err(e) = rollback.commit(rollback_delta) {
+                // The in-memory root has already advanced and the log may hold a partial record:
+                // the handle is no longer usable for commits.
+                nomt.store.poison();
+                return Err(e);
+            }
         }
 
         nomt.store.commit(
@@ -755,9 +760,17 @@ impl FinishedSession {
         if let Some(rollback_delta) = self.rollback_delta {
             // UNWRAP: if rollback_delta is `Some`, then rollback must be also `Some`.
             let rollback = nomt.store.rollback().unwrap();
-            if let Some(delta) = rollback.commit_nonblocking(rollback_delta)? {
-                self.rollback_delta = Some(delta);
-                return Ok(Some(self));
+            match rollback.commit_nonblocking(rollback_delta) {
+                Ok(Some(delta)) => {
+                    self.rollback_delta = Some(delta);
+                    return Ok(Some(self));
+                }
+                Ok(None) => {}
+                Err(e) => {
+                    // The log may hold a partial record.
+                    nomt.store.poison();
+                    return Err(e);
+                }
             }
         }
 
@@ -830,7 +843,12 @@ impl Overlay {
         if let Some(rollback_delta) = rollback_delta {
             // UNWRAP: if rollback_delta is `Some`, then rollback must be also `Some`.
             let rollback = nomt.store.rollback().unwrap();
-            rollback.commit(rollback_delta)?;
+            if let Err(e) = rollback.commit(rollback_delta) {
+                // The in-memory root has already advanced and the log may hold a partial record:
+                // the handle is no longer usable for commits.
+                nomt.store.poison();
+                return Err(e);
+            }
         }
 
         nomt.store
@@ -889,7 +907,12 @@ impl Overlay {
         if let Some(rollback_delta) = rollback_delta {
             // UNWRAP: if rollback_delta is `Some`, then rollback must be also `Some`.
             let rollback = nomt.store.rollback().unwrap();
-            rollback.commit(rollback_delta)?;
+            if let Err(e) = rollback.commit(rollback_delta) {
+                // The in-memory root has already advanced and the log may hold a partial record:
+                // the handle is no longer usable for commits.
+                nomt.store.poison();
+                return Err(e);
+            }
         }
 
         nomt.store
